@@ -61,6 +61,10 @@ type Case struct {
 	Format    string   `json:"format"`               // "ts" | "fmp4"
 	MasterURL string   `json:"master_url,omitempty"` // "" = Client.URI is Streams[0].Ref
 	Streams   []Stream `json:"streams"`
+	// Pace = media time per media request in 90 kHz ticks (0 = 1800 = 20 ms). The client paces delivery
+	// on it; a few scenarios use several hundred ms so that fetched segments are still queued while
+	// the downloader goes on.
+	Pace int `json:"pace,omitempty"`
 }
 
 // Req is one observed / expected request.
